@@ -6,7 +6,26 @@ what is missing), so every generated program is well-typed by construction."""
 ADDRS = ['tz1VSUr8wwNhLAzempoch5d6hLRiTh8Cjcjb', 'KT1BEqzn5Wx8uJrZNvuS9DVHmLvG9td3fDLi', 'tz3WMqdzXqRWXwyvj5Hp2H7QEepaUuS7vd9K',
          'tz2TSvNTh2epDMhZHrw73nV9piBX7kLZ9K9m', 'KT18amZmM5W7qDWVt2pH6uj7sCEd3kbzLrHT']
 CHAINS = ['NetXdQprcVkpaWU', 'NetXynUjJNZm7wi', 'NetXSgo1ZT2DRUG']
-SIMPLE = [('unit',), ('bool',), ('int',), ('nat',), ('mutez',), ('timestamp',), ('string',), ('bytes',), ('address',), ('chain_id',)]
+# public keys of the three curves and their hashes (HASH_KEY must map KEYS[i] to KEY_HASHES[i]); the last hashes have no key here
+KEYS = ['edpktmbdMY3CZ5NsojummD3y23UVtPDq1aAXdxeiFqtqNqpwBF132W', 'edpkubJb1vpdePjHQJk7fXu84P3S3G49EA6JgPKMCBqCuRDw6tHQqp',
+        'sppk7d8JtF7QDQoXAN5JQiJrZhqEJ8a2wNscNZKBLX8HemhEE6wuxgk', 'sppk7b9JHPD8Pxa9dkNHqeDgGtzXAPkPJZwpym1hp86Bz7BFRFiR7Tn',
+        'p2pk65F8uLw4Qt6f1gJqgs4AFV4DCqyDPsT8aGD6Em7BFvwSRLLvWgV', 'p2pk66qUgMdo3pGFVogQT5YeEfxfhH3ky3oPy2fAimzX3XKGRU7C6yD']
+KEY_HASHES = ['tz1bsdUtmpeQuTPeNiVksrvuyLzrjHU6LLXG', 'tz1cWk3eUkCuPAUrzFy9dJi5BrYowN9UT3jN', 'tz2LFUcTeBvgqeo1R9M9ZXu591KyDjPhwsJA',
+              'tz2M2G5a2G8Qz8y4KpbWaiegjBXxr4LhsRwd', 'tz3SU9RJf9oezj1gurJa8zMyYVPk4wfEumsd', 'tz3h2Y9cfvbbFNjLpmsvsj948vm37WiV2vbQ',
+              'tz1VSUr8wwNhLAzempoch5d6hLRiTh8Cjcjb', 'tz3WMqdzXqRWXwyvj5Hp2H7QEepaUuS7vd9K']
+SIMPLE = [('unit',), ('bool',), ('int',), ('nat',), ('mutez',), ('timestamp',), ('string',), ('bytes',), ('address',), ('chain_id',),
+          ('key_hash',), ('key',)]
+# parameter sections of the running contract: (name, type expression with entrypoint annotations, entrypoint -> type)
+_A = lambda prim, ann, *args: {'prim': prim, 'annots': ['%' + ann], **({'args': list(args)} if args else {})}
+PARAMETERS = [
+    ('unit', {'prim': 'unit'}, {'default': ('unit',)}),
+    ('or-add-name', {'prim': 'or', 'args': [_A('nat', 'add'), _A('string', 'name')]},
+     {'default': ('or', ('nat',), ('string',)), 'add': ('nat',), 'name': ('string',)}),
+    ('nested', {'prim': 'or', 'args': [{'prim': 'or', 'args': [_A('unit', 'a'), _A('int', 'b')]}, _A('pair', 'c', {'prim': 'nat'}, {'prim': 'bool'})]},
+     {'default': ('or', ('or', ('unit',), ('int',)), ('pair', ('nat',), ('bool',))), 'a': ('unit',), 'b': ('int',), 'c': ('pair', ('nat',), ('bool',))}),
+]
+KT_ADDRS = ['KT1BEqzn5Wx8uJrZNvuS9DVHmLvG9td3fDLi', 'KT18amZmM5W7qDWVt2pH6uj7sCEd3kbzLrHT']
+TZ_ADDRS = ['tz1VSUr8wwNhLAzempoch5d6hLRiTh8Cjcjb', 'tz3WMqdzXqRWXwyvj5Hp2H7QEepaUuS7vd9K', 'tz2TSvNTh2epDMhZHrw73nV9piBX7kLZ9K9m']
 HASH_PRIMS = ['BLAKE2B', 'SHA256', 'SHA512', 'KECCAK', 'SHA3']
 SET_ELT = [('int',), ('nat',), ('string',), ('bytes',), ('bool',), ('mutez',), ('timestamp',)]
 COMPARABLE = [('int',), ('nat',), ('string',), ('bytes',), ('bool',), ('mutez',), ('timestamp',)]
@@ -20,6 +39,24 @@ def ty_mich(t):
 
 def ty_from_mich(m):
     return (m['prim'], *[ty_from_mich(a) for a in m.get('args', [])])
+
+
+def pushable(t):
+    """can a value of this type be written as a PUSH literal (no contract / operation outside a lambda's signature)"""
+    if t[0] in ('contract', 'operation', 'never'):
+        return False
+    if t[0] == 'lambda':
+        return True
+    return all(pushable(a) for a in t[1:])
+
+
+def packable(t):
+    """the packable types of the model: the plain data classes"""
+    if t[0] in ('unit', 'bool', 'int', 'nat', 'mutez', 'timestamp', 'string', 'bytes'):
+        return True
+    if t[0] in ('option', 'list', 'set', 'or', 'pair', 'map'):
+        return all(packable(a) for a in t[1:])
+    return False
 
 
 def comb_leaves(t):
@@ -64,6 +101,8 @@ class Gen:
         self.max_depth = max_depth
         self.used = {}
         self.shapes = {}
+        self.entrypoints = PARAMETERS[0][2]
+        self.in_lambda = 0      # SELF is not allowed inside a lambda
 
     def shape(self, key):
         """boundary shapes chosen by the generator (goes into the evidence)"""
@@ -143,6 +182,10 @@ class Gen:
             return {'string': r.choice(ADDRS)}
         if p == 'chain_id':
             return {'string': r.choice(CHAINS)}
+        if p == 'key_hash':
+            return {'string': r.choice(KEY_HASHES)}
+        if p == 'key':
+            return {'string': r.choice(KEYS)}
         if p == 'option':
             if r.random() < 0.35:
                 return {'prim': 'None'}
@@ -161,7 +204,11 @@ class Gen:
             keys = self.distinct_sorted_keys(t[1], r.choice([0, 0, 1, 2, 3]))
             return [{'prim': 'Elt', 'args': [k, self.gen_value(t[2], depth - 1)]} for k in keys]
         if p == 'lambda':
-            return self.body_to([t[1]], [t[2]], r.choice([0, 1, 2]), depth=0)
+            self.in_lambda += 1
+            try:
+                return self.body_to([t[1]], [t[2]], r.choice([0, 1, 2]), depth=0)
+            finally:
+                self.in_lambda -= 1
         raise ValueError(t)
 
     def gen_key(self, kt):
@@ -214,6 +261,7 @@ class Gen:
             'unit': {'prim': 'Unit'}, 'bool': {'prim': 'False'}, 'int': {'int': '0'}, 'nat': {'int': '0'}, 'mutez': {'int': '0'},
             'timestamp': {'int': '0'}, 'string': {'string': ''}, 'bytes': {'bytes': ''}, 'address': {'string': ADDRS[0]},
             'chain_id': {'string': CHAINS[0]}, 'option': {'prim': 'None'}, 'list': [], 'map': [], 'set': [],
+            'key_hash': {'string': KEY_HASHES[0]}, 'key': {'string': KEYS[0]},
         }
         if p in table:
             return table[p]
@@ -239,8 +287,35 @@ class Gen:
         elif extra > 1:
             code.append({'prim': 'DROP', 'args': [{'int': str(extra)}]})
         for t in reversed(target[:len(target) - k]):
-            code.append({'prim': 'PUSH', 'args': [ty_mich(t), self.default_value(t)]})
+            code += self.produce(t)
         return code
+
+    def produce(self, t):
+        """code leaving one value of type `t` on the stack: a PUSH where the type is pushable, instructions otherwise"""
+        P = lambda prim, *args: {'prim': prim, 'args': list(args)} if args else {'prim': prim}
+        if pushable(t):
+            return [P('PUSH', ty_mich(t), self.default_value(t))]
+        p = t[0]
+        if p == 'operation':
+            return [P('NONE', ty_mich(('key_hash',))), P('SET_DELEGATE')]
+        if p == 'contract':
+            if t[1] == ('unit',):
+                return [P('PUSH', ty_mich(('key_hash',)), {'string': KEY_HASHES[0]}), P('IMPLICIT_ACCOUNT')]
+            return [P('PUSH', ty_mich(('address',)), {'string': KT_ADDRS[1]}), P('CONTRACT', ty_mich(t[1])),
+                    P('IF_NONE', [P('PUSH', ty_mich(('string',)), {'string': 'no contract'}), P('FAILWITH')], [])]
+        if p == 'option':
+            return [P('NONE', ty_mich(t[1]))]
+        if p == 'list':
+            return [P('NIL', ty_mich(t[1]))]
+        if p == 'map':
+            return [P('EMPTY_MAP', ty_mich(t[1]), ty_mich(t[2]))]
+        if p == 'pair':
+            return self.produce(t[2]) + self.produce(t[1]) + [P('PAIR')]
+        if p == 'or':
+            if t[1] != ('never',):
+                return self.produce(t[1]) + [P('LEFT', ty_mich(t[2]))]
+            return self.produce(t[2]) + [P('RIGHT', ty_mich(t[1]))]
+        raise ValueError(t)
 
     def body_to(self, st, target, n, depth):
         code, st2, dead = self.body(list(st), n, depth)
@@ -293,6 +368,14 @@ class Gen:
         add(3, 'ARITH', lambda: self._arith_idiom(st))
         add(4, 'COLL', lambda: self._coll_idiom(st, depth))
         add(0.5, 'EMPTY_SET', lambda: self._empty_set(st))
+        add(1.6, 'CONV', lambda: self._conv_idiom(st))
+        add(0.9, 'KEYS', lambda: self._key_idiom(st))
+        add(2.2, 'CONTRACTS', lambda: self._contract_idiom(st))
+        add(1.6, 'PACKING', lambda: self._pack_idiom(st))
+        if not self.in_lambda:
+            add(0.6, 'SELF', lambda: self._self(st))
+        if depth > 0:
+            add(0.8, 'NEVER', lambda: self._never_idiom(st, depth))
         if depth > 0:
             add(1, 'LAMBDA', lambda: self._lambda(st, depth))
         res = None
@@ -330,6 +413,28 @@ class Gen:
                 add(3, 'EQ..', lambda: ([{'prim': op}], [('bool',)] + st[1:]))
             if top[0] == 'nat':
                 add(2, 'INT', lambda: ([{'prim': 'INT'}], [('int',)] + st[1:]))
+            if top[0] in ('int', 'nat'):
+                add(2, 'BYTES', lambda: ([{'prim': 'BYTES'}], [('bytes',)] + st[1:]))
+            if top[0] == 'bytes':
+                cv = r.choice(['INT', 'NAT'])
+                add(3, cv, lambda: ([{'prim': cv}], [('int',) if cv == 'INT' else ('nat',)] + st[1:]))
+            if top[0] == 'key':
+                add(6, 'HASH_KEY', lambda: ([{'prim': 'HASH_KEY'}], [('key_hash',)] + st[1:]))
+            if top[0] == 'key_hash':
+                add(6, 'VOTING_POWER', lambda: ([{'prim': 'VOTING_POWER'}], [('nat',)] + st[1:]))
+                add(5, 'IMPLICIT_ACCOUNT', lambda: ([{'prim': 'IMPLICIT_ACCOUNT'}], [('contract', ('unit',))] + st[1:]))
+            if top == ('option', ('key_hash',)):
+                add(8, 'SET_DELEGATE', lambda: ([{'prim': 'SET_DELEGATE'}], [('operation',)] + st[1:]))
+            if packable(top):
+                add(1.5, 'PACK', lambda: ([{'prim': 'PACK'}], [('bytes',)] + st[1:]))
+            if top[0] == 'contract':
+                add(8, 'ADDRESS', lambda: ([{'prim': 'ADDRESS'}], [('address',)] + st[1:]))
+            if top[0] == 'address':
+                add(5, 'CONTRACT', lambda: self._contract_instr(st))
+            if pushable(top) and top[0] != 'lambda':
+                add(0.6, 'EMIT', lambda: self._emit(st))
+            if len(st) >= 3 and st[1] == ('mutez',) and st[2] == ('contract', top):
+                add(20, 'TRANSFER_TOKENS', lambda: ([{'prim': 'TRANSFER_TOKENS'}], [('operation',)] + st[3:]))
             if top[0] == 'option' and depth > 0:
                 add(4, 'IF_NONE', lambda: self._if('IF_NONE', st[1:], [top[1]] + st[1:], depth))
             if top[0] == 'or' and depth > 0:
@@ -400,7 +505,7 @@ class Gen:
                 add(4, 'CONCAT', lambda: ([{'prim': 'CONCAT'}], st[1:]))
             if snd[0] == 'lambda' and snd[1] == top:
                 add(14, 'EXEC', lambda: ([{'prim': 'EXEC'}], [snd[2]] + st[2:]))
-            if snd[0] == 'lambda' and snd[1][0] == 'pair' and snd[1][1] == top and top[0] != 'lambda':
+            if snd[0] == 'lambda' and snd[1][0] == 'pair' and snd[1][1] == top and top[0] != 'lambda' and pushable(top):
                 add(14, 'APPLY', lambda: ([{'prim': 'APPLY'}], [('lambda', snd[1][2], snd[2])] + st[2:]))
         if depth > 0:
             add(2, 'LOOP', lambda: self._loop(st, depth))
@@ -610,6 +715,217 @@ class Gen:
             return code + arg + [P('UPDATE'), P('DUP'), pk, P('GET')], [('option', vt), ct] + st
         return code + arg + [P('UPDATE')], new
 
+    # ---- extension 2, phase A ------------------------------------------------------------------------------------
+    CONV_INTS = [0, 1, -1, 127, 128, -127, -128, -129, 255, 256, -255, -256, -257, 32767, 32768, -32768, -32769, 2**63 - 1, 2**63,
+                 -2**63, -2**63 - 1, 2**64, 2**127, -2**127, -2**127 - 1, 2**200 + 5, -2**200]
+    CONV_BYTES = ['', '00', '0000', '01', '7f', '80', 'ff', '00ff', '0080', 'ff7f', 'ff80', 'ffff', '007f', '0100', '8000', '7fff',
+                  '000001', 'ffffff80', '0000000000000000000001', '80' + '00' * 15, 'ff' * 17, '7f' + 'ff' * 31]
+
+    def _conv_idiom(self, st):
+        """int / nat <-> bytes at the edges: zero and the empty string, the sign-byte boundaries (127 / 128 / -128 / -129 …),
+        leading 0x00 / 0xff bytes, long values; also the round trips BYTES ; INT and BYTES ; NAT"""
+        r = self.rng
+        P = lambda prim: {'prim': prim}
+        kind = r.choice(['BYTES int', 'BYTES int', 'BYTES nat', 'INT', 'INT', 'NAT', 'BYTES;INT', 'BYTES;NAT', 'INT;BYTES', 'NAT;BYTES'])
+        self.shape('conv ' + kind)
+        if kind.startswith('BYTES') or kind in ('BYTES;INT', 'BYTES;NAT'):
+            nat = kind in ('BYTES nat', 'BYTES;NAT')
+            v = r.choice(self.CONV_INTS) if r.random() < 0.7 else self.gen_int()
+            if nat:
+                v = abs(v)
+            self.shape('BYTES of ' + ('0' if v == 0 else ('negative' if v < 0 else 'positive')) + (' (sign-byte edge)' if abs(v) in (127, 128, 129, 255, 256, 32767, 32768, 32769, 2**63, 2**127) else ''))
+            code = [{'prim': 'PUSH', 'args': [{'prim': 'nat' if nat else 'int'}, {'int': str(v)}]}, P('BYTES')]
+            self.note('BYTES')
+            if kind == 'BYTES;INT':
+                self.note('INT')
+                return code + [P('INT')], [('int',)] + st
+            if kind == 'BYTES;NAT':
+                self.note('NAT')
+                return code + [P('NAT')], [('nat',)] + st
+            return code, [('bytes',)] + st
+        b = r.choice(self.CONV_BYTES) if r.random() < 0.75 else r.bytes_(r.choice([1, 2, 3, 8, 9, 33])).hex()
+        self.shape('bytes operand ' + ('empty' if not b else ('0x00-prefixed' if b.startswith('00') else ('0xff-prefixed' if b.startswith('ff') else ('top bit set' if int(b[:2], 16) >= 128 else 'top bit clear')))))
+        code = [{'prim': 'PUSH', 'args': [{'prim': 'bytes'}, {'bytes': b}]}]
+        first = 'INT' if kind.startswith('INT') else 'NAT'
+        self.note(first)
+        code.append(P(first))
+        if kind.endswith(';BYTES'):
+            self.note('BYTES')
+            return code + [P('BYTES')], [('bytes',)] + st
+        return code, [('int',) if first == 'INT' else ('nat',)] + st
+
+    def _key_idiom(self, st):
+        """HASH_KEY on keys of the three curves, VOTING_POWER of listed / unlisted delegates"""
+        r = self.rng
+        P = lambda prim: {'prim': prim}
+        if r.random() < 0.5:
+            k = r.choice(KEYS)
+            self.shape('HASH_KEY ' + k[:4])
+            self.note('HASH_KEY')
+            code = [{'prim': 'PUSH', 'args': [{'prim': 'key'}, {'string': k}]}, P('HASH_KEY')]
+            if r.random() < 0.5:
+                self.note('VOTING_POWER')
+                return code + [P('VOTING_POWER')], [('nat',)] + st
+            return code, [('key_hash',)] + st
+        self.note('VOTING_POWER')
+        return [{'prim': 'PUSH', 'args': [{'prim': 'key_hash'}, {'string': r.choice(KEY_HASHES)}]}, P('VOTING_POWER')], [('nat',)] + st
+
+    def _never_idiom(self, st, depth):
+        """NEVER closing a branch that cannot be taken: the `never` side of an `or`, the Some branch of an `option never`, the
+        body of an ITER over an (empty) `list never`, a lambda from `never`"""
+        r = self.rng
+        P = lambda prim, *args: {'prim': prim, 'args': list(args)} if args else {'prim': prim}
+        t = self.gen_type(1)
+        kind = r.choice(['or-left', 'or-right', 'option', 'list', 'lambda'])
+        self.shape('NEVER in ' + kind)
+        if kind == 'or-left':
+            return [P('PUSH', ty_mich(('or', ('never',), t)), P('Right', self.gen_value(t))), P('IF_LEFT', [P('NEVER')], [])], [t] + st
+        if kind == 'or-right':
+            return [P('PUSH', ty_mich(('or', t, ('never',))), P('Left', self.gen_value(t))), P('IF_LEFT', [], [P('NEVER')])], [t] + st
+        if kind == 'option':
+            return [P('NONE', ty_mich(('never',))), P('IF_NONE', [self.push(t)], [P('NEVER')])], [t] + st
+        if kind == 'list':
+            return [P('NIL', ty_mich(('never',))), P('ITER', [P('NEVER')])], st
+        return [P('LAMBDA', ty_mich(('never',)), ty_mich(t), [P('NEVER')])], [('lambda', ('never',), t)] + st
+
+    # ---- phase C: contracts and operations -------------------------------------------------------------------------
+    def _ep_annot(self, names=('add', 'name', 'a', 'b', 'c', 'foo')):
+        r = self.rng
+        x = r.random()
+        if x < 0.45:
+            return None
+        if x < 0.55:
+            return 'default'
+        return r.choice(names)
+
+    def _contract_instr(self, st, t=None):
+        t = t or self.gen_type(1)
+        ep = self._ep_annot()
+        ins = {'prim': 'CONTRACT', 'args': [ty_mich(t)]}
+        if ep is not None:
+            ins['annots'] = ['%' + ep]
+        self.shape('CONTRACT ' + ('without annotation' if ep is None else ('%default' if ep == 'default' else '%entrypoint')))
+        return [ins], [('option', ('contract', t))] + st[1:]
+
+    def _self(self, st):
+        r = self.rng
+        ep = r.choice(sorted(self.entrypoints))
+        ins = {'prim': 'SELF'}
+        if ep != 'default' or r.random() < 0.3:
+            ins['annots'] = ['%' + ep]
+        self.shape('SELF ' + ('default' if ep == 'default' else '%entrypoint'))
+        code, st2 = [ins], [('contract', self.entrypoints[ep])] + st
+        if r.random() < 0.5:
+            self.note('ADDRESS')
+            code, st2 = code + [{'prim': 'ADDRESS'}], [('address',)] + st
+            if r.random() < 0.5:      # … and back: the address names the entrypoint, CONTRACT finds it again
+                self.note('CONTRACT')
+                code.append({'prim': 'CONTRACT', 'args': [ty_mich(self.entrypoints[ep])]})
+                st2 = [('option', ('contract', self.entrypoints[ep]))] + st
+        return code, st2
+
+    def _emit(self, st):
+        r = self.rng
+        ins = {'prim': 'EMIT', 'args': [ty_mich(st[0])]}
+        if r.random() < 0.7:
+            ins['annots'] = ['%' + r.choice(['tag', 'evt', 'x'])]
+        return [ins], [('operation',)] + st[1:]
+
+    def _contract_idiom(self, st):
+        """an address (originated / implicit, with / without `%entrypoint`) and CONTRACT (with / without annotation, `%default`,
+        of type unit / another type), then the handle is used: ADDRESS, TRANSFER_TOKENS (zero and non-zero amounts); implicit
+        accounts through IMPLICIT_ACCOUNT; SET_DELEGATE"""
+        r = self.rng
+        P = lambda prim, *args: {'prim': prim, 'args': list(args)} if args else {'prim': prim}
+        kind = r.choice(['contract', 'contract', 'contract', 'implicit', 'delegate'])
+        if kind == 'delegate':
+            self.note('SET_DELEGATE')
+            if r.random() < 0.4:
+                self.shape('SET_DELEGATE None')
+                return [P('NONE', ty_mich(('key_hash',))), P('SET_DELEGATE')], [('operation',)] + st
+            self.shape('SET_DELEGATE Some')
+            return [P('PUSH', ty_mich(('key_hash',)), {'string': r.choice(KEY_HASHES)}), P('SOME'), P('SET_DELEGATE')], [('operation',)] + st
+        if kind == 'implicit':
+            self.note('IMPLICIT_ACCOUNT')
+            code = [P('PUSH', ty_mich(('key_hash',)), {'string': r.choice(KEY_HASHES)}), P('IMPLICIT_ACCOUNT')]
+            t = ('unit',)
+            st2 = [('contract', t)] + st
+        else:
+            implicit = r.random() < 0.35
+            addr = r.choice(TZ_ADDRS if implicit else KT_ADDRS)
+            aep = r.choice([None, None, 'add', 'name', 'default', 'foo'])
+            t = r.choice([('unit',), ('unit',), ('nat',), ('string',), self.gen_type(1)]) if implicit else self.gen_type(1)
+            text = addr if aep is None else f'{addr}%{aep}'
+            self.shape('CONTRACT on ' + ('an implicit account' if implicit else 'an originated address') + (' naming an entrypoint' if aep not in (None, 'default') else (' %default' if aep else '')) +
+                       (', type unit' if t == ('unit',) else ', another type'))
+            c, st2 = self._contract_instr([('address',)] + st, t)
+            self.note('CONTRACT')
+            code = [P('PUSH', ty_mich(('address',)), {'string': text})] + c
+            k = r.random()
+            if k < 0.3:
+                return code, st2
+            # open the option: the None branch fails
+            code.append(P('IF_NONE', [P('PUSH', ty_mich(('string',)), {'string': 'none'}), P('FAILWITH')], []))
+            self.note('IF_NONE')
+            st2 = [('contract', t)] + st
+        k = r.random()
+        if k < 0.35:
+            self.note('ADDRESS')
+            return code + [P('ADDRESS')], [('address',)] + st
+        if k < 0.85 and pushable(t):
+            amount = r.choice([0, 0, 1, 5, 10**6, 2**63 - 1])
+            self.shape('TRANSFER_TOKENS amount ' + ('0' if amount == 0 else ('max' if amount == 2**63 - 1 else '>0')))
+            self.note('TRANSFER_TOKENS')
+            return code + [P('PUSH', ty_mich(('mutez',)), {'int': str(amount)}), self.push(t), P('TRANSFER_TOKENS')], [('operation',)] + st
+        return code, st2
+
+    # ---- phase B (first half): PACK of every plain value class ---------------------------------------------------------
+    PACK_LEAVES = [('unit',), ('bool',), ('int',), ('nat',), ('mutez',), ('timestamp',), ('string',), ('bytes',)]
+
+    def gen_packable_type(self, depth=2):
+        r = self.rng
+        if depth <= 0 or r.random() < 0.35:
+            return r.choice(self.PACK_LEAVES)
+        k = r.randrange(7)
+        if k == 0:
+            return ('option', self.gen_packable_type(depth - 1))
+        if k == 1:
+            return ('or', self.gen_packable_type(depth - 1), self.gen_packable_type(depth - 1))
+        if k == 2:
+            return ('list', self.gen_packable_type(depth - 1))
+        if k == 3:
+            return ('set', r.choice(SET_ELT))
+        if k == 4:
+            return ('map', r.choice(SET_ELT), self.gen_packable_type(depth - 1))
+        # right combs of 2 .. 6 components (2: `Pair a b`, 3: `Pair a (Pair b c)`, 4 and more: the sequence form), with pair leaves
+        n = r.choice([2, 2, 3, 3, 4, 4, 5, 6])
+        leaves = [self.gen_packable_type(depth - 1) if r.random() < 0.3 else r.choice(self.PACK_LEAVES) for _ in range(n)]
+        if r.random() < 0.25:
+            leaves[r.randrange(n - 1)] = ('pair', r.choice(self.PACK_LEAVES), r.choice(self.PACK_LEAVES))      # a pair on the left
+        self.shape(f'PACK comb of {n if n < 4 else "4+"}')
+        return comb_of(leaves)
+
+    def _pack_idiom(self, st):
+        """PACK of a pushed value of every plain class: numbers around the zarith byte boundaries (±63 / ±64, ±8191 / ±8192, big),
+        empty and long strings / bytes, combs of 2, 3, 4+ components, empty and non-empty collections"""
+        r = self.rng
+        t = self.gen_packable_type(2)
+        if t[0] in ('int', 'nat', 'mutez', 'timestamp') and r.random() < 0.7:
+            v = r.choice([0, 1, 63, 64, 127, 128, 8191, 8192, 2**31, 2**62, 2**63 - 1])
+            if t[0] in ('int', 'timestamp') and r.random() < 0.5:
+                v = -v
+            val = {'int': str(v)}
+            self.shape('PACK number ' + ('0' if v == 0 else ('one byte' if abs(v) < 64 else ('two bytes' if abs(v) < 8192 else 'long'))))
+        elif t[0] in ('string', 'bytes') and r.random() < 0.5:
+            n = r.choice([0, 1, 255, 256, 300])
+            val = {'string': 'a' * n} if t[0] == 'string' else {'bytes': r.bytes_(n).hex()}
+            self.shape(f'PACK {t[0]} of length {n if n < 2 else ("<256" if n < 256 else "256+")}')
+        else:
+            val = self.gen_value(t, depth=3)
+        self.shape('PACK of ' + t[0])
+        self.note('PACK')
+        return [{'prim': 'PUSH', 'args': [ty_mich(t), val]}, {'prim': 'PACK'}], [('bytes',)] + st
+
     def _hash_idiom(self, st):
         """hash a pushed byte string (lengths around the block sizes of the five functions), sometimes twice"""
         r = self.rng
@@ -719,7 +1035,11 @@ class Gen:
         a, b = self.gen_type(1), self.gen_type(1)
         if st and self.rng.random() < 0.6:      # make EXEC / APPLY reachable
             a = st[0] if self.rng.random() < 0.6 else ('pair', st[0], self.gen_type(1))
-        body = self.body_to([a], [b], self.rng.choice([0, 1, 2, 3]), depth - 1)
+        self.in_lambda += 1
+        try:
+            body = self.body_to([a], [b], self.rng.choice([0, 1, 2, 3]), depth - 1)
+        finally:
+            self.in_lambda -= 1
         code = [{'prim': 'LAMBDA', 'args': [ty_mich(a), ty_mich(b), body]}]
         new = [('lambda', a, b)] + st
         if st and a == st[0]:
@@ -729,7 +1049,7 @@ class Gen:
                 self.note('EXEC')
                 code.append({'prim': 'EXEC'})
                 new = [b] + st[1:]
-        elif st and a[0] == 'pair' and a[1] == st[0] and st[0][0] != 'lambda':
+        elif st and a[0] == 'pair' and a[1] == st[0] and st[0][0] != 'lambda' and pushable(st[0]):
             code.append({'prim': 'SWAP'})
             new = [st[0], ('lambda', a, b)] + st[1:]
             if self.rng.random() < 0.6:
@@ -784,8 +1104,7 @@ class Gen:
         top = st[0]
         body = self.body_to([top[1]] + st[1:], [top] + st[1:], self.rng.choice([0, 1, 2]), depth - 1)
         # the fix-up pushes the default of `or a b`, which is a Left: make termination certain with a Right instead
-        body = body + [{'prim': 'DROP'}, {'prim': 'PUSH', 'args': [ty_mich(top[2]), self.default_value(top[2])]},
-                       {'prim': 'RIGHT', 'args': [ty_mich(top[1])]}]
+        body = body + [{'prim': 'DROP'}] + self.produce(top[2]) + [{'prim': 'RIGHT', 'args': [ty_mich(top[1])]}]
         return [{'prim': 'LOOP_LEFT', 'args': [body]}], [top[2]] + st[1:]
 
     def _slice(self, st):
